@@ -236,10 +236,6 @@ fn check<C: Cm>(case: &Case) -> PResult {
         let ctx = |f: Fail| Fail { site: f.site, msg: format!("after step {step} = {desc}: {}", f.msg) };
         check_symbols(&sy, &target, &model, &format!("edit/{n}")).map_err(ctx)?;
         ensure_eq!(target.is_empty(), model.is_empty(), format!("edit/{n}/is_empty"), "after step {step} = {desc}: is_empty");
-        check_image(&target, &model, &format!("edit/{n}")).map_err(ctx)?;
-        let fresh = sy.seq(&model);
-        ensure!(target == fresh && fresh == target, format!("edit/{n}/eq_fresh"), "after step {step} = {desc}: edited sequence {target} != freshly built {fresh}");
-        check_same_hash(&target, &fresh, &format!("edit/{n}"), &format!("after step {step} = {desc}, edited vs fresh")).map_err(ctx)?;
     }
     check_content(&sy, &target, &model, &format!("final/{n}"))?;
     for (i, (s, c, kind)) in snaps.iter().enumerate() {
